@@ -3,7 +3,7 @@
    modelled __init__ (mk_factor); a result factor as [vars card states shape data].
    Error codes: 1 ValueError, 2 KeyError, 3 IndexError, 4 TypeError / impossible order parameter. *)
 From Coq Require Import List Bool Arith ZArith QArith Qcanon.
-From PV Require Import Base.Sx Base.Semiring Base.Ravel Base.FinSum Base.RefFactor C04.Tensor C04.Model.
+From PV Require Import Base.Sx Base.Semiring Base.Ravel Base.FinSum Base.RefFactor C04.Tensor C04.Model C04.MaxCsr.
 Import ListNotations.
 Local Close Scope Qc_scope.
 Local Close Scope Q_scope.
@@ -93,13 +93,13 @@ Definition run_c04_marginalize (s : sx) : sx :=
       | None => bad_request end
   | _ => bad_request
   end.
-(* the max-product csr is the code's max only on non-negative tables: error 98 otherwise *)
+(* max over the removed axes in the max-product semiring with bottom element (C04/MaxCsr.v): entries of any sign *)
+Definition of_oQc (o : option Qc) : sx := match o with Some q => of_Qc q | None => SL [] end.
 Definition run_c04_maximize (s : sx) : sx :=
   match s with
   | SL [sf; sX] =>
       match sx_list sx_nat sX with
-      | Some X => with1 sf (fun f => if nonnegb f then reply (of_factor of_Qc) (maximize Qc_max_csr f X)
-                                     else sx_err 98)
+      | Some X => with1 sf (fun f => reply (of_factor of_oQc) (maximize Qcm_csr (lift_factor f) X))
       | None => bad_request end
   | _ => bad_request
   end.
